@@ -344,7 +344,8 @@ def _conn_table(r, fi):
     outputs, and the components stored per connection with the projection that gets each back out of its entry (None: the entry
     itself).  The connection and its communication delay may sit in two tables or side by side in one entry (a pair, a record)."""
     # (filled inside the loop over the nodes' outputs, or in a second pass over the table that loop filled)
-    st = [e for e in r.events if e.kind == "store_sub" and e.func == fi.qualname and e.key is not None and e.key[0] == "tuple" and len(e.key[1]) == 2 and len(e.loops) in (1, 2)
+    from ..roles import stores_through_derived_tables
+    st = [e for e in stores_through_derived_tables(r) if e.func == fi.qualname and e.key is not None and e.key[0] == "tuple" and len(e.key[1]) == 2 and len(e.loops) in (1, 2)
           and not (e.term[0] == "obj" and e.term[1] == "Edge")]
     comps = []
     for e in st:
@@ -363,6 +364,14 @@ def _own_entry(t, key, comps) -> bool:
     component of the item whose key is `key`."""
     if t[0] == "index" and t[2] == key:
         return True
+    # the delay looked up (by this key) in a table that a second pass derived from the connection table: the entry of the element whose key it
+    # is, i.e. the delay computed from the connection stored under that key
+    for x in T.walk(t):
+        if x[0] == "elem" and x[1][0] == "call" and isinstance(x[1][1], tuple) and x[1][1][0] == "attr" and x[1][1][2] == "items" and x[1][1][1][0] == "comp" and x[1][1][1][2][0] == "tuple":
+            v_ = x[1][1][1][2][1][1]
+            dist_ = [v for v, _ in comps if v[0] == "ite" or (v[0] == "attr" and v[2] == "delay_dist")]
+            if len(dist_) == 1 and T.subst(t, {T.mk_index(x, T.ONE): v_}) == dist_[0] and not any(y == T.mk_index(x, T.ZERO) for y in T.walk(t)):
+                return True
     proj = None
     if t[0] == "attr":
         proj, base = ("attr", t[2]), t[1]
